@@ -24,7 +24,7 @@ def write_cases(path, cases):
 
 
 def sig(e):
-    fam = "SORTKIND " if e["meta"].get("fam") == "sortkind" else ""
+    fam = "SORTKIND " if e["meta"].get("fam") == "sortkind" else ""     # (numbers of different kinds in a sorted loop: fix fea5965)
     return "template %s%r -> out=%r" % (fam, "".join(chr(u) for u in e["t"])[:300], "".join(chr(u) for u in e["out"])[:200])
 
 
